@@ -683,6 +683,8 @@ fn lex_line(
 							}
 							None =>
 							{
+								// There is no character after the backslash.
+								source_offset_end -= 1;
 								let warning = LexedToken {
 									result: Err(
 										Error::UnexpectedTrailingBackslash,
